@@ -20,6 +20,8 @@ IDS = ["Red", "GreenApple", "HTTPServer", "Utf8String", "X", "Abc_def", "A1b2", 
        "Http2_Proxy", "Z9", "QRCode", "Wi5Fi77", "r#type", "r#Match", "r#loop_Forever2",
        # non-ASCII identifiers: the method names come from Model/HeckU.v (usnakify) on the probe's character table
        "Öl2", "Über9Mensch", "Café3", "ÉlanVital", "straßeName7x",
+       # numeric characters that are NOT ASCII digits (Nd / Nl): no new word in front of them
+       "Page٣", "BandⅧ", "Ｘ３y", "Row〇",
        # leading / trailing / doubled underscores around all-lower-case words (heck drops and collapses them)
        "Type_", "_reserved", "Two__words", "__x", "abc_"]
 TYSETS = [[], ["u8"], ["String"], ["i32", "bool"], ["String", "u8", "usize"], ["bool", "i32"], ["Option<u8>"]]
